@@ -130,7 +130,9 @@ pub fn trace_process(seed: u64, n: usize) -> Vec<J> {
     let mut cases = cases;
     cases.push((Box::leak(cd.into_boxed_str()), Box::leak(cdat.into_boxed_str()), vec![
         "SELECT * FROM requests", "SELECT * FROM Requests", "SELECT * FROM REQUESTS", "SELECT * FROM requestS LIMIT 2", "SELECT COUNT(*) AS n FROM rEQUESTS"]));
-    let extra = ["CREATE TABLE zz1('(a)' => a TEXT);", "CREATE TABLE aa2(l = 'x(y)', l[1] => b INT);", "CREATE TABLE mm3({ .q } => q REAL);"];
+    // the neighbours' names: lower case, capitalised, upper case, with digits / underscores (orderings by letter case differ from the plain one)
+    let extra = ["CREATE TABLE zz1('(a)' => a TEXT);", "CREATE TABLE aa2(l = 'x(y)', l[1] => b INT);", "CREATE TABLE mm3({ .q } => q REAL);",
+                 "CREATE TABLE Metrics('(m)' => m TEXT);", "CREATE TABLE ZEBRA9(l = 'z(\\d)', l[1] => z INT);", "CREATE TABLE Bb_3({ .r } => r TEXT);", "CREATE TABLE u_('(u)' => u TEXT);"];
     let mut ev = Vec::new();
     for i in 0..n {
         // round-robin over the corpora (last one first) and their queries, so that a short run still visits every corpus
